@@ -85,8 +85,12 @@ def do_run(prop, muts, also, tier):
             res['unit_tests'] = out.strip().splitlines()[-1] if out.strip() else ''
             res['checks'] = {}
             for c in [prop] + [x for x in also if x != prop]:
+                ev = VERIF / 'evidence' / ('%s.json' % c)
+                saved_ev = ev.read_text() if ev.exists() else None      # evidence belongs to runs on the unchanged tree
                 t0 = time.time()
                 rc, out = sh([str(VERIF / 'harness' / 'check.py'), c, '--tier', tier], cwd=str(VERIF), timeout=7200)
+                if saved_ev is not None:
+                    ev.write_text(saved_ev)
                 lines = out.strip().splitlines()
                 res['checks'][c] = {
                     'exit': rc, 'wall_s': round(time.time() - t0, 1),
@@ -109,6 +113,8 @@ def do_run(prop, muts, also, tier):
         res['caught'] = res.get('checks', {}).get(prop, {}).get('exit') == 1
         res['caught_by'] = [c for c, v in res.get('checks', {}).items() if v['exit'] == 1]
         (d / 'result.json').write_text(json.dumps(res, indent=1))
+        # leave the regenerated Lean files in the state of the clean tree
+        sh([PY, str(VERIF / 'harness' / 'extract.py')], cwd=str(VERIF))
         print(prop, m, 'demo clean/mutated:', res.get('demo_clean_exit'), res.get('demo_mutated_exit'), '| unit:', res.get('unit_tests'),
               '| caught by:', res['caught_by'])
     return 0
